@@ -207,7 +207,13 @@ def replay_history(task):
             again, _ = _call_obs(target, v)
             fresh_obj = drive.build_element(post[x])
             fresh, _ = _call_obs(fresh_obj, v)
-            rec.update(out=out, again=again, fresh=fresh)
+            # a fresh object with the configuration the SPECIFICATION says the history produces
+            try:
+                spec_obj = drive.build_element(_fix(st["heap"][x]))
+                fresh_spec, _ = _call_obs(spec_obj, v)
+            except Exception:  # noqa
+                fresh_spec = None
+            rec.update(out=out, again=again, fresh=fresh, fresh_spec=fresh_spec)
             if x in ("D", "F"):
                 flags["instanceOfParent"] = (k != "ok") or isinstance(r, objs["C"])
                 flat, _ = _call_obs(fresh_obj, v)
@@ -394,10 +400,11 @@ def run(pid, tier, replay_file=None):
         arg = op["arg"]
         arg_t = tlajson_to_tla(_fixp(arg)) if op["op"] == "putprop" else tlajson_to_tla(arg)
         events.append((eid, '[id |-> %d, op |-> %s, x |-> %s, arg |-> %s, pre |-> %s, post |-> %s, out |-> %s, '
-                            'again |-> %s, fresh |-> %s, flat |-> %s, flags |-> %s]'
+                            'again |-> %s, fresh |-> %s, freshspec |-> %s, flat |-> %s, flags |-> %s]'
                        % (eid, codec.tla_str(op["op"]), codec.tla_str(op["x"]), arg_t, _heap_tla(rec["pre"]),
                           _heap_tla(rec["post"]), _o(rec.get("out")), _o(rec.get("again")), _o(rec.get("fresh")),
-                          _o(rec.get("flat")), _flags_tla(rec["flags"]))))
+                          _o(rec.get("fresh_spec") or rec.get("fresh")), _o(rec.get("flat")),
+                          _flags_tla(rec["flags"]))))
         if op["op"] == "validate" and not rec["flags"].get("snapSame", True) and pid == "C08":
             rep.violation(("C08", "attributes-rewritten", op["x"]),
                           f"validation rewrote attributes of pre-existing objects (deep vars() snapshot differs): {_h(st['hist'])}",
